@@ -270,7 +270,7 @@ def lit_key(inp):
 def run_lit(ctx, h, m, gfile):
     """c19.lit: literal spellings and String#to_int against the Coq model's literal evaluator
     (eval_literal / to_int) and against the independent written-value oracle above"""
-    n = ctx.n(2000, 150000)
+    n = ctx.n(2000, 60000)
     corpus = os.path.join(vlib.ROOT, "corpus", "C19.lit.txt")
     cmd = [h, "-seed", str(ctx.sseed("c19.lit")), "-n", str(n), "-tier", ctx.tier, "-extra", "lit"]
     if os.path.exists(corpus):
@@ -354,21 +354,34 @@ def run(ctx):
         "Proved (Coq, for every unicode.IsGraphic / IsLetter): every byte string (valid UTF-8 or not) printed by the model of "
         "String.Inspect is read by the model of the lexer's string-literal mode as ONE plain literal with exactly those bytes; every "
         "Unicode scalar value printed by the model of Char.Inspect is read back by Lexer.character+Parser.charLiteral as that char; "
-        "every integer printed in decimal is read back by numberLiteral+ParseBigInt(lexeme,0)(+unary minus) as that integer. The "
-        "printer models mirror value/string.go and value/char.go AS FIXED by fixes/C19-inspect-escapes.patch; for the unfixed printers "
-        "the _refuted theorems exhibit U+0080. Tie: (1) c19.insp compares Inspect() of strings/chars/ints with the extracted model "
-        "(IsGraphic dumped from Go at check time) and feeds the implementation's text to the model's reader; (2) c19.rt evaluates "
-        "v.inspect end to end in-process (checker+compiler+VM) for strings, chars, Ints, Float/Float32/Float64/BigFloat, fixed-width "
-        "ints, symbols, nil/bool and nested lists/tuples/maps/records/sets/ranges/regexes and compares with v by a structural dump. "
-        "NOT proved, only tested by c19.rt: floats (shortest round trip is Go strconv), BigFloat, fixed-width ints, symbols, "
-        "collections, regexes, and that parser/compiler/VM turn the lexed literal into that value. Int literals in bases 2/4/8/12/16 "
-        "and String#to_int are modelled (parse_bigint) but no theorem is stated for them. Chars outside Unicode scalar values "
+        "every integer printed in decimal is read back by numberLiteral+ParseBigInt(lexeme,0)(+unary minus) as that integer. "
+        "LITERAL direction, proved on the models of Lexer.numberLiteral, parseUBigInt/ParseBigIntWithErr and "
+        "StrictParseUint/StrictParseInt (uint64 wrap-around and both overflow tests modelled): every integer literal as written - "
+        "base 10 without prefix INCLUDING leading zeros, bases 2/4/8/12/16 with prefix in either case, `_` separators, suffixes "
+        "i8..u64/u, optional unary sign - is one token that evaluates to sum(d_i*b^i), and is rejected iff the value does not fit "
+        "the suffix (C19_literal_value); String#to_int gives the written value for every base 2..36 and for base 0 with and "
+        "without prefix (C19_to_int, C19_to_int_base0_prefixed, C19_to_int_base0_decimal) and fails on any string containing a "
+        "non-digit of the base (C19_to_int_invalid). The printer models mirror value/string.go and value/char.go AS FIXED by "
+        "fixes/C19-inspect-escapes.patch; for the unfixed printers the _refuted theorems exhibit U+0080. Tie: (1) c19.insp compares "
+        "Inspect() of strings/chars/ints with the extracted model (IsGraphic dumped from Go at check time) and feeds the "
+        "implementation's text to the model's reader; (2) c19.lit generates literal SPELLINGS and to_int strings, evaluates them with "
+        "the real checker+compiler+VM / value.String.ToInt / Elk-level to_int and compares with the extracted eval_literal / to_int "
+        "and with an independent exact written-value oracle in Python; (3) c19.rt evaluates v.inspect end to end in-process "
+        "(checker+compiler+VM) for strings, chars, Ints, Float/Float32/Float64/BigFloat, fixed-width ints, symbols, nil/bool and "
+        "nested lists/tuples/maps/records/sets/ranges/regexes and compares with v by a structural dump. NOT proved, only tested: "
+        "floats (inspect round trip by c19.rt; Float/Float64/Float32 literal spellings by c19.lit against exact rational rounding "
+        "in Python, the implementation delegates to Go strconv), BigFloat, symbols, collections, regexes, and that "
+        "parser/compiler/VM turn the lexed token into that value (c19.lit, c19.rt). Not covered: BigFloat literal spellings; "
+        "strings without any digit (\"_\", \"0x_\") are accepted as 0 by to_int - they are no numerals, the theorems require at "
+        "least one digit and the stream only counts them (no_digit_strings_accepted). Chars outside Unicode scalar values "
         "(surrogates produced by Char#++) are outside the theorem's domain.")
     ctx.trusted_base += [
         "unicode.IsGraphic / unicode.IsLetter as Section variables (theorems hold for every instance; table dumped from Go for the extracted run)",
         "strconv.FormatInt / big.Int.String modelled as canonical decimal (validated by c19.insp)",
         "fmt %02x/%04x/%08X modelled as fixed-width hex (validated by c19.insp)",
-        "lexer model restricted to a literal that spans the whole input; parser/compiler/VM literal evaluation reached only by c19.rt",
+        "lexer model restricted to a literal that spans the whole input; parser/compiler/VM literal evaluation reached only by c19.lit / c19.rt",
+        "math/big Mul/Add in parseUBigInt modelled as exact Z arithmetic; uint64 arithmetic of StrictParseUint modelled as Z mod 2^64 (validated by c19.lit)",
+        "the written-value oracle of c19.lit (checks/C19.py: positional value, exact rational rounding to binary32/64)",
         "the harness's structural dump and in-process evaluation (checker.CheckSourceBytecode + vm.InterpretTopLevel)",
     ]
     ctx.run_proof_gate()
